@@ -625,7 +625,7 @@ def _(rnd, g, tier):
 class C20(object):
     id = "C20"
     engine = "simomp"
-    tiers = {"quick": {"runs": 16000, "budget_s": 60, "selftest_every": 40, "fresh_selftest": 16},
+    tiers = {"quick": {"runs": 40000, "budget_s": 60, "selftest_every": 40, "fresh_selftest": 16},
              "thorough": {"runs": 3000000, "budget_s": 800, "selftest_every": 400, "fresh_selftest": 32}}
     rule = ("one run = (kernel from the pyf, arguments drawn to satisfy its documented preconditions with boundary "
             "emphasis, team 1..32, strategy, allocator knobs incl. tiny initial disjoint-set capacity and moving "
